@@ -1,3 +1,348 @@
 package drv
 
-func (o *obs) trim(ObsMask) {}
+import (
+	"context"
+	"errors"
+	"fmt"
+	"strconv"
+	"strings"
+	"time"
+
+	"github.com/klev-dev/klevdb"
+
+	"verif/h/model"
+)
+
+// ---- C15: trim helpers --------------------------------------------------
+
+// prefixLen returns k if offs is exactly the set of the first k live offsets, else -1.
+func (w *World) prefixLen(offs map[int64]struct{}) int {
+	k := len(offs)
+	if k > len(w.M.Live) {
+		return -1
+	}
+	for i := 0; i < k; i++ {
+		if _, ok := offs[w.M.Live[i].Off]; !ok {
+			return -1
+		}
+	}
+	return k
+}
+
+// SizeBounds returns the size targets probed at the current state: 0, 1, and
+// for every prefix the remaining estimate and its neighbours, plus the
+// current size and size+1.
+func (w *World) SizeBounds() []int64 {
+	st, err := w.L.Stat()
+	if err != nil {
+		return []int64{0, 1}
+	}
+	seen := map[int64]bool{}
+	var out []int64
+	add := func(v int64) {
+		if v >= 0 && !seen[v] {
+			seen[v] = true
+			out = append(out, v)
+		}
+	}
+	add(0)
+	add(1)
+	rem := st.Size
+	for _, m := range w.M.Live {
+		add(rem - 1)
+		add(rem)
+		add(rem + 1)
+		rem -= w.L.Size(klevdb.Message{Key: m.Key, Value: m.Val})
+	}
+	add(rem - 1)
+	add(rem)
+	add(rem + 1)
+	return out
+}
+
+func (w *World) checkFindOffset(b int64, offs map[int64]struct{}, err error) int {
+	if err != nil {
+		w.failf("C15", "FindByOffset(%d) failed: %v", b, err)
+		return -1
+	}
+	k := w.prefixLen(offs)
+	if k < 0 {
+		w.failf("C15", "FindByOffset(%d) = %v is not a prefix of the live sequence %v", b, keys(offs), offsOf(w.M.Live))
+		return -1
+	}
+	bound := b
+	if b == klevdb.OffsetNewest {
+		bound = w.M.Next
+	}
+	if b == klevdb.OffsetOldest {
+		bound = 0
+	}
+	want := 0
+	for _, m := range w.M.Live {
+		if m.Off < bound {
+			want++
+		}
+	}
+	if k != want {
+		w.failf("C15", "FindByOffset(%d) selected %d messages, %d live offsets are below the bound %v", b, k, want, offsOf(w.M.Live))
+	}
+	return k
+}
+
+func (w *World) checkFindCount(n int, offs map[int64]struct{}, err error) int {
+	if err != nil {
+		w.failf("C15", "FindByCount(%d) failed: %v", n, err)
+		return -1
+	}
+	k := w.prefixLen(offs)
+	if k < 0 {
+		w.failf("C15", "FindByCount(%d) = %v is not a prefix of the live sequence %v", n, keys(offs), offsOf(w.M.Live))
+		return -1
+	}
+	want := len(w.M.Live) - n
+	if want < 0 {
+		want = 0
+	}
+	if k != want {
+		w.failf("C15", "FindByCount(%d) selected %d of %d messages, want %d", n, k, len(w.M.Live), want)
+	}
+	return k
+}
+
+func (w *World) checkFindSize(s int64, offs map[int64]struct{}, err error) int {
+	if err != nil {
+		w.failf("C15", "FindBySize(%d) failed: %v", s, err)
+		return -1
+	}
+	k := w.prefixLen(offs)
+	if k < 0 {
+		w.failf("C15", "FindBySize(%d) = %v is not a prefix of the live sequence %v", s, keys(offs), offsOf(w.M.Live))
+		return -1
+	}
+	st, serr := w.L.Stat()
+	if serr != nil {
+		return k
+	}
+	est := func(j int) int64 {
+		rem := st.Size
+		for i := 0; i < j; i++ {
+			rem -= w.L.Size(klevdb.Message{Key: w.M.Live[i].Key, Value: w.M.Live[i].Val})
+		}
+		return rem
+	}
+	if !(est(k) < s || k == len(w.M.Live)) {
+		w.failf("C15", "FindBySize(%d) selected %d messages, estimated remaining size %d is not below the target", s, k, est(k))
+	}
+	if k > 0 && est(k-1) < s {
+		w.failf("C15", "FindBySize(%d) selected %d messages although %d already bring the estimate to %d", s, k, k-1, est(k-1))
+	}
+	return k
+}
+
+func (w *World) checkFindAge(t int64, offs map[int64]struct{}, err error) int {
+	if err != nil && len(w.M.Live) == 0 && (errors.Is(err, klevdb.ErrInvalidOffset) || errors.Is(err, klevdb.ErrNotFound)) {
+		// no live message at all: the time lookup underneath may say so (C10 allows both errors)
+		return 0
+	}
+	if err != nil {
+		w.failf("C15", "FindByAge(%d) failed: %v [live %v]", t, err, w.M.Live)
+		return -1
+	}
+	k := w.prefixLen(offs)
+	if k < 0 {
+		w.failf("C15", "FindByAge(%d) = %v is not a prefix of the live sequence %v", t, keys(offs), w.M.Live)
+		return -1
+	}
+	for i := 0; i < k; i++ {
+		if w.M.Live[i].T > t {
+			w.failf("C15", "FindByAge(%d) selected %v which is newer than the bound", t, w.M.Live[i])
+		}
+	}
+	if w.M.Monotone {
+		for i := k; i < len(w.M.Live); i++ {
+			if w.M.Live[i].T < t {
+				w.failf("C15", "FindByAge(%d) left %v which is older than the bound (selected %d) [live %v]", t, w.M.Live[i], k, w.M.Live)
+				break
+			}
+		}
+	}
+	return k
+}
+
+func (o *obs) trim(ObsMask) {
+	w := o.w
+	ctx := context.Background()
+	bounds := []int64{klevdb.OffsetOldest, klevdb.OffsetNewest}
+	for b := int64(0); b <= w.M.Next+1; b++ {
+		bounds = append(bounds, b)
+	}
+	for _, b := range bounds {
+		offs, err := klevdb.FindByOffset(ctx, w.L, b)
+		o.rec("findoffset %d %v %s", b, keys(offs), errClass(err))
+		w.checkFindOffset(b, offs, err)
+	}
+	for n := 0; n <= len(w.M.Live)+1; n++ {
+		offs, err := klevdb.FindByCount(ctx, w.L, n)
+		o.rec("findcount %d %v %s", n, keys(offs), errClass(err))
+		w.checkFindCount(n, offs, err)
+	}
+	for _, s := range w.SizeBounds() {
+		offs, err := klevdb.FindBySize(ctx, w.L, s)
+		o.rec("findsize %d %v %s", s, keys(offs), errClass(err))
+		w.checkFindSize(s, offs, err)
+	}
+	for _, t := range w.TimeQueries() {
+		offs, err := klevdb.FindByAge(ctx, w.L, time.UnixMicro(t))
+		o.rec("findage %d %v %s", t, keys(offs), errClass(err))
+		w.checkFindAge(t, offs, err)
+	}
+}
+
+// trim letters: TrO/TrC/TrS/TrA : "<mode>,<bound>", mode s (single pass), m (Multi), o (MultiOffsets)
+func init() {
+	extraLetters["TrO"] = func(w *World, arg string) bool { return w.trimLetter("O", arg) }
+	extraLetters["TrC"] = func(w *World, arg string) bool { return w.trimLetter("C", arg) }
+	extraLetters["TrS"] = func(w *World, arg string) bool { return w.trimLetter("S", arg) }
+	extraLetters["TrA"] = func(w *World, arg string) bool { return w.trimLetter("A", arg) }
+}
+
+func (w *World) trimLetter(kind, arg string) bool {
+	mode, bs, _ := strings.Cut(arg, ",")
+	bound, _ := strconv.ParseInt(bs, 10, 64)
+	ctx := context.Background()
+	name := fmt.Sprintf("TrimBy%s(%s,%d)", map[string]string{"O": "Offset", "C": "Count", "S": "Size", "A": "Age"}[kind], mode, bound)
+	// size estimates include index files, which are rebuilt on demand: read
+	// through the log first so that the helper's own Stat sees what ours does
+	if kind == "S" {
+		w.apply("L", "")
+	}
+	// what the finder selects right now (validated separately)
+	var sel map[int64]struct{}
+	var ferr error
+	switch kind {
+	case "O":
+		sel, ferr = klevdb.FindByOffset(ctx, w.L, bound)
+	case "C":
+		sel, ferr = klevdb.FindByCount(ctx, w.L, int(bound))
+	case "S":
+		sel, ferr = klevdb.FindBySize(ctx, w.L, bound)
+	case "A":
+		sel, ferr = klevdb.FindByAge(ctx, w.L, time.UnixMicro(bound))
+	}
+	if ferr != nil {
+		if kind == "A" && w.checkFindAge(bound, nil, ferr) == 0 {
+			return true
+		}
+		w.failf("C15", "%s: find failed: %v", name, ferr)
+		return true
+	}
+	k := w.prefixLen(sel)
+	before := w.M.Clone()
+	pl := &passLog{Log: w.L, w: w}
+	var got map[int64]struct{}
+	var err error
+	collect := func(msgs []klevdb.Message, _ int64, e error) {
+		got = map[int64]struct{}{}
+		for _, m := range msgs {
+			got[m.Offset] = struct{}{}
+		}
+		err = e
+	}
+	t := time.UnixMicro(bound)
+	switch kind + mode {
+	case "Os":
+		collect(klevdb.TrimByOffset(ctx, pl, bound))
+	case "Om":
+		collect(klevdb.TrimByOffsetMulti(ctx, pl, bound, NoBackoff))
+	case "Oo":
+		got, _, err = klevdb.TrimByOffsetMultiOffsets(ctx, pl, bound, NoBackoff)
+	case "Cs":
+		collect(klevdb.TrimByCount(ctx, pl, int(bound)))
+	case "Cm":
+		collect(klevdb.TrimByCountMulti(ctx, pl, int(bound), NoBackoff))
+	case "Co":
+		got, _, err = klevdb.TrimByCountMultiOffsets(ctx, pl, int(bound), NoBackoff)
+	case "Ss":
+		collect(klevdb.TrimBySize(ctx, pl, bound))
+	case "Sm":
+		collect(klevdb.TrimBySizeMulti(ctx, pl, bound, NoBackoff))
+	case "So":
+		collect(klevdb.TrimBySizeMultiOffsets(ctx, pl, bound, NoBackoff))
+	case "As":
+		collect(klevdb.TrimByAge(ctx, pl, t))
+	case "Am":
+		collect(klevdb.TrimByAgeMulti(ctx, pl, t, NoBackoff))
+	case "Ao":
+		got, _, err = klevdb.TrimByAgeMultiOffsets(ctx, pl, t, NoBackoff)
+	default:
+		panic("bad trim letter " + kind + mode)
+	}
+	if err != nil {
+		w.failf("C15", "%s failed: %v", name, err)
+		return true
+	}
+	// nothing outside the selected prefix may be touched
+	for o := range got {
+		if _, ok := sel[o]; !ok {
+			w.failf("C15", "%s removed offset %d outside the selected prefix %v", name, o, keys(sel))
+		}
+	}
+	for o := range pl.offs {
+		if _, ok := got[o]; !ok {
+			w.failf("C15", "%s did not report offset %d which it deleted", name, o)
+		}
+	}
+	if mode == "s" || k < 0 {
+		return true
+	}
+	// multi-pass variants: the whole prefix goes and the bound holds
+	if len(got) != len(sel) {
+		w.failf("C15", "%s removed %v, selected prefix was %v", name, keys(got), keys(sel))
+		return true
+	}
+	switch kind {
+	case "O":
+		b := bound
+		if b == klevdb.OffsetNewest {
+			b = before.Next
+		}
+		for _, m := range w.M.Live {
+			if m.Off < b {
+				w.failf("C15", "%s left live offset %d below the bound", name, m.Off)
+			}
+		}
+	case "C":
+		want := len(before.Live)
+		if int(bound) < want {
+			want = int(bound)
+		}
+		if len(w.M.Live) != want {
+			w.failf("C15", "%s left %d messages, want min(%d,%d)", name, len(w.M.Live), len(before.Live), bound)
+		}
+	case "S":
+		if st, serr := w.L.Stat(); serr == nil && !(st.Size < bound || len(w.M.Live) == 0) && w.singleVersion() {
+			w.failf("C15", "%s left Stat.Size %d, not below the target, with %d messages", name, st.Size, len(w.M.Live))
+		}
+	case "A":
+		if before.Monotone {
+			for _, m := range w.M.Live {
+				if m.T < bound {
+					w.failf("C15", "%s left %v older than the bound", name, m)
+				}
+			}
+		}
+	}
+	return true
+}
+
+func (w *World) singleVersion() bool {
+	_, vers := SegVersions(w.Dir)
+	for _, v := range vers {
+		if v != w.Cfg.Ver {
+			return false
+		}
+	}
+	return true
+}
+
+var _ = model.New
